@@ -337,5 +337,90 @@ theorem calculatePath_linear_eq_ref (fuel : Nat) (mode : GameMode) (points : Lis
     have := segFold_ref fuel mode points hl points [] _ st (by simp) (Nat.le_refl _) hfold
     simpa [refLinearNatural, refLinearNaturalBy] using this
 
+/-- without NaN joints the path of all-linear control points is the list of ALL control-point positions. -/
+theorem calculatePath_linear_positions (fuel : Nat) (mode : GameMode) (points : List (PathControlPoint P))
+    (bufs b : CurveBuffers P F) (opt : F) (hl : AllLinear points)
+    (hrefl : ∀ cp ∈ points.dropLast, cp.pathType ≠ none → Pos.eq cp.pos cp.pos = true)
+    (h : calculatePath fuel mode points bufs = .ok (b, opt)) :
+    b.path = points.map (·.pos) ∧ b.path.length = points.length := by
+  have := (calculatePath_linear_eq_ref fuel mode points bufs b opt hl h).1
+  rw [this, refLinearNatural, ref_eq_positions _ _ hrefl, List.length_map]
+  exact ⟨rfl, rfl⟩
+
+/-- seeded defect C16-o on the model: a (linear) path type on the LAST control point changes nothing in the path. -/
+theorem calculatePath_typed_last_no_extra (fuel fuel' : Nat) (mode mode' : GameMode)
+    (pts : List (PathControlPoint P)) (p : Pos P) (t : PathType)
+    (bufs bufs' b b' : CurveBuffers P F) (opt opt' : F) (hl : AllLinear (pts ++ [⟨p, some t⟩]))
+    (h : calculatePath fuel mode (pts ++ [⟨p, some t⟩]) bufs = .ok (b, opt))
+    (h' : calculatePath fuel' mode' (pts ++ [⟨p, none⟩]) bufs' = .ok (b', opt')) :
+    b.path = b'.path := by
+  have hl' : AllLinear (pts ++ [(⟨p, none⟩ : PathControlPoint P)]) := by
+    intro cp hcp ty hty
+    rcases List.mem_append.mp hcp with hm | hm
+    · exact hl cp (List.mem_append_left _ hm) ty hty
+    · rw [List.mem_singleton.mp hm] at hty; cases hty
+  rw [(calculatePath_linear_eq_ref fuel mode _ bufs b opt hl h).1,
+    (calculatePath_linear_eq_ref fuel' mode' _ bufs' b' opt' hl' h').1]
+  exact ref_typed_last_no_extra _ pts p t
+
 end Generic
+/-! ## the index-based, literal transcription (`start` instead of the running segment) agrees -/
+
+section Idx
+variable {P : Type}
+
+/-- body of `for i in 0..pts.len()` of `ref_linear_natural`, state `(out, start)`. -/
+def refIdxStep (eq : Pos P → Pos P → Bool) (pts : List (PathControlPoint P)) (st : List (Pos P) × Nat) (i : Nat) :
+    List (Pos P) × Nat :=
+  match pts[i]? with
+  | none => st
+  | some pt =>
+    if pt.pathType.isNone && decide (i + 1 < pts.length) then st
+    else (refEmit eq st.1 (((pts.drop st.2).take (i + 1 - st.2)).map (·.pos)), i)
+
+def refLinearNaturalIdx (eq : Pos P → Pos P → Bool) (pts : List (PathControlPoint P)) : List (Pos P) :=
+  ((List.range pts.length).foldl (refIdxStep eq pts) ([], 0)).1
+
+theorem refIdx_fold (eq : Pos P → Pos P → Bool) (pts : List (PathControlPoint P)) :
+    ∀ (suf pre : List (PathControlPoint P)) (st : List (Pos P) × Nat),
+      pts = pre ++ suf → st.2 ≤ pre.length →
+      ((List.range' pre.length suf.length).foldl (refIdxStep eq pts) st).1 =
+        refGo eq st.1 (((pts.drop st.2).take (pre.length - st.2)).map (·.pos)) suf := by
+  intro suf
+  induction suf with
+  | nil => intro pre st _ _; rfl
+  | cons p rest ih =>
+    intro pre st hpts hs
+    rw [List.length_cons, List.range'_succ, List.foldl_cons]
+    have hpts' : pts = (pre ++ [p]) ++ rest := by rw [hpts]; simp
+    have hlen' : (pre ++ [p]).length = pre.length + 1 := by simp
+    have hk : pts[pre.length]? = some p := by rw [hpts]; simp
+    have hdec : decide (pre.length + 1 < pts.length) = !rest.isEmpty := by
+      rw [hpts]; cases rest <;> simp
+    have hstep : refIdxStep eq pts st pre.length =
+        if p.pathType.isNone && !rest.isEmpty then st
+        else (refEmit eq st.1 (((pts.drop st.2).take (pre.length - st.2)).map (·.pos) ++ [p.pos]), pre.length) := by
+      unfold refIdxStep
+      rw [hk]
+      simp only [hdec, seg_succ pts st.2 pre.length p hs hk, List.map_append, List.map_cons, List.map_nil]
+    rw [hstep, ← hlen', refGo]
+    cases hc : (p.pathType.isNone && !rest.isEmpty)
+    · simp only [Bool.false_eq_true, if_false]
+      rw [ih (pre ++ [p]) _ hpts' (by rw [hlen']; exact Nat.le_succ _), hlen']
+      simp only [seg_succ pts pre.length pre.length p (Nat.le_refl _) hk, Nat.sub_self, List.take_zero,
+        List.nil_append, List.map_cons, List.map_nil]
+    · simp only [if_true]
+      rw [ih (pre ++ [p]) st hpts' (by rw [hlen']; omega), hlen', seg_succ pts st.2 pre.length p hs hk]
+      simp only [List.map_append, List.map_cons, List.map_nil]
+
+/-- the index-based transcription and the structurally recursive one are the same function. -/
+theorem refLinearNaturalIdx_eq (eq : Pos P → Pos P → Bool) (pts : List (PathControlPoint P)) :
+    refLinearNaturalIdx eq pts = refLinearNaturalBy eq pts := by
+  unfold refLinearNaturalIdx refLinearNaturalBy
+  rw [List.range_eq_range']
+  have := refIdx_fold eq pts pts [] ([], 0) (by simp) (Nat.le_refl _)
+  simpa using this
+
+end Idx
+
 end Rosu.C16
